@@ -14,12 +14,14 @@ ALL = ["C%02d" % i for i in range(1, 20)]
 def main():
     checks = []
     na = []
+    ready = set(open(os.path.join(V, "tools", "props", "READY")).read().split())
     for pid in ALL:
-        try:
-            m = importlib.import_module("props." + pid)
-        except ModuleNotFoundError:
-            na.append({"property_id": pid, "reason": "no check built yet in this round (planned: DESIGN.md section 4, %s)" % pid})
+        if pid not in ready:
+            na.append({"property_id": pid, "reason": "the check for this property is still under construction (its slice is not "
+                                                     "finished and validated on the unchanged tree yet; design: DESIGN.md "
+                                                     "section 4, %s); machine-checked proof is applicable to it" % pid})
             continue
+        m = importlib.import_module("props." + pid)
         md = m.MANIFEST
         checks.append({
             "property_id": pid,
